@@ -379,7 +379,7 @@ fn stress(c: &Ctx, threads: usize, rounds: usize) {
 }
 
 pub fn run(c: &Ctx) {
-    c.set_rule("controlled scheduler on hook H1: real threads park before every MemfsGuard acquisition and exactly one is released at a time, so an execution is a function of (seed state, program, schedule). For every program ALL interleavings at critical-section granularity are enumerated depth-first (cap per program noted). Programs: quick = all 2-thread programs with (1,1) calls over a 15-form core alphabet and a seeded quarter of the (2,1) programs from a populated seed state, all 448 'two mutators of one directory vs one listing/reader' programs, and all (1,1) programs over the full 43-form alphabet from two more seed states (nested dirs + link; cwd below root); thorough = all (1,1),(2,1) over the 43-form alphabet, seeded samples of (2,2),(1,1,1),(2,1,1), four seed states, plus (both tiers) every rich call form of the VFS trait on every path of a seed state as a one-thread program (guard discipline: nesting is a property of the call alone), plus uncontrolled 8-thread stress rounds. Oracle per execution: no nested guard acquisition (would dead-lock), no panic, every call returns, C03 invariants at quiescence, every successful append_all payload exactly once, and linearizability: per-call results (Ok values; Err-ness) and the final tree equal those of SOME sequential order of the same calls on a fresh instance that respects program order and real-time precedence. Non-trivial = execution in which calls of different threads overlap in time and one mutates; distinct by (seed, program, schedule).");
+    c.set_rule("controlled scheduler on hook H1: real threads park before every MemfsGuard acquisition and exactly one is released at a time, so an execution is a function of (seed state, program, schedule). For every program ALL interleavings at critical-section granularity are enumerated depth-first (cap per program noted). Programs: quick = all 2-thread programs with (1,1) calls over a 15-form core alphabet and a seeded quarter of the (2,1) programs from a populated seed state, all 448 'two mutators of one directory vs one listing/reader' programs, and all (1,1) programs over the full 43-form alphabet from two more seed states (nested dirs + link; cwd below root); thorough = all (1,1),(2,1) over the 43-form alphabet, seeded samples of (2,2),(1,1,1),(2,1,1), four seed states, plus (both tiers) every rich call form of the VFS trait on every path of a seed state as a one-thread program (guard discipline: nesting is a property of the call alone) and every listed single-step call form on every path of that state racing each of 8 mutators (quick: a seeded half), plus uncontrolled 8-thread stress rounds. Oracle per execution: no nested guard acquisition (would dead-lock), no panic, every call returns, C03 invariants at quiescence, every successful append_all payload exactly once, and linearizability: per-call results (Ok values; Err-ness) and the final tree equal those of SOME sequential order of the same calls on a fresh instance that respects program order and real-time precedence. Non-trivial = execution in which calls of different threads overlap in time and one mutates; distinct by (seed, program, schedule).");
     c.assume("all shared state of Memfs is behind the one RwLock (safe Rust): interleavings at guard granularity are complete; sequential specification = Memfs itself run single-threaded (functional correctness is C01's job)");
     install_hook();
     let quick = c.tier == Tier::Quick;
@@ -471,6 +471,41 @@ pub fn run(c: &Ctx) {
         disc += 1;
     }
     c.note("guard_discipline_single_call_programs", disc);
+    // every single-step call form the statement lists, on every path of the seed state, racing each of a
+    // set of mutators of the same subtree: (1,1) programs, all interleavings
+    let racers = vec![
+        Op::MkdirP(s("/a/c")),
+        Op::Remove(s("/a/f")),
+        Op::RemoveAll(s("/a")),
+        Op::MoveP(s("/a"), s("/e")),
+        Op::WriteAll(s("/a/f"), b"W".to_vec()),
+        Op::Symlink(s("/a/new"), s("/d")),
+        Op::Remove(s("/l")),
+        Op::SetCwd(s("/a/b")),
+    ];
+    let claimed = |o: &Op| matches!(o.name(), "mkfile" | "mkdir_p" | "mkdir_m" | "write_all" | "append_all" | "read_all" | "read_lines" | "exists" | "is_dir" | "is_file" | "is_symlink" | "is_symlink_dir" | "is_symlink_file" | "is_exec" | "is_readonly" | "mode" | "uid" | "gid" | "owner" | "entry" | "abs" | "paths" | "dirs" | "files" | "all_paths" | "all_dirs" | "all_files" | "entries" | "remove" | "remove_all" | "set_cwd" | "readlink" | "readlink_abs" | "copy" | "move_p" | "symlink");
+    let mut race = 0u64;
+    let mut forms: Vec<Op> = vec![];
+    for p in disc_paths {
+        forms.extend(crate::fsalpha::single_path_ops(p, false).into_iter().filter(|o| claimed(o) && !matches!(o, Op::MkfileM(..))));
+    }
+    for a in disc_paths.iter().take(9) {
+        for b in disc_paths.iter().take(10) {
+            forms.extend(crate::fsalpha::two_path_ops(a, b, false));
+        }
+    }
+    for (i, f) in forms.iter().enumerate() {
+        for (j, r) in racers.iter().enumerate() {
+            if quick && !sampled(c.seed, 47, (i * 8 + j) as u64, 1, 2) {
+                continue;
+            }
+            let mut p = vec![vec![f.clone()], vec![r.clone()]];
+            tag_appends(&mut p);
+            jobs.push((2, p));
+            race += 1;
+        }
+    }
+    c.note("call_form_vs_racer_programs", race);
     c.note("programs", jobs.len());
     let execs = std::sync::atomic::AtomicU64::new(0);
     par_for(jobs.len() as u64, 4, |i| {
